@@ -6,12 +6,14 @@ package stats
 
 import (
 	"encoding/json"
+	"flag"
 	"fmt"
 	"hash/fnv"
 	"os"
 	"path/filepath"
 	"runtime"
 	"sort"
+	"strconv"
 	"strings"
 	"sync"
 	"time"
@@ -333,4 +335,27 @@ func Flush() {
 	}
 	b, _ := json.Marshal(o)
 	_ = os.WriteFile(p, b, 0o644)
+}
+
+// ScaledChecks runs fn with the -rapid.checks flag divided by div (at least min), for
+// properties whose single case costs real time.  The flag is restored afterwards.
+func ScaledChecks(div, min int, fn func()) {
+	f := flag.Lookup("rapid.checks")
+	if f == nil {
+		fn()
+		return
+	}
+	old := f.Value.String()
+	n, err := strconv.Atoi(old)
+	if err != nil || n <= 0 {
+		fn()
+		return
+	}
+	n /= div
+	if n < min {
+		n = min
+	}
+	_ = flag.Set("rapid.checks", strconv.Itoa(n))
+	defer func() { _ = flag.Set("rapid.checks", old) }()
+	fn()
 }
